@@ -4,7 +4,7 @@ import itertools
 from sa.sym import Engine, show, show_cond, subterms, C, is_const, PathLimit
 from sa.evalterm import ev, Unevaluable, geom, squares
 from .common import *
-from .tables import is_true, is_false
+from .tables import is_true, is_false, pin
 
 EXPLANATION = (
     "Static clauses: (R1) all five pseudo-legal generators run on every path before the legality filter, which is the "
@@ -122,7 +122,7 @@ def r2_filter_shape(ctx):
     for o in backs:
         calls = [e for e in o.events if e[0] == 'call' and e[1] in (ap, un, GAT)]
         names = [e[1].rsplit('::', 1)[-1] for e in calls]
-        col = {v: k for k, v in cd.items()}.get(dict(o.conds).get(('discr', ('p', 3))))
+        col = {v: k for k, v in cd.items()}.get(pin(dict(o.conds).get(('discr', ('p', 3)))))
         if names != ['apply', 'generate_attack_targets', 'undo']:
             ctx.ob(rule, name, 'iteration: apply < attack map < undo', False, found=names, expected=['apply', 'generate_attack_targets', 'undo'])
             continue
